@@ -45,6 +45,44 @@ Proof. unfold ends. now rewrite nw_shift. Qed.
 Theorem wquant_shift B q vals c lw : wquant B q vals (map (Rplus c) lw) = wquant B q vals lw.
 Proof. unfold wquant. now rewrite neff_shift, ends_shift. Qed.
 
+(* the end points are a cumulative distribution: same number as the samples, the last one is exactly 1 *)
+Lemma cums_last acc l d : l <> [] -> last (cums acc l) d = acc + rsum l.
+Proof.
+  revert acc; induction l as [|w r IH]; intros acc H; [congruence|].
+  destruct r as [|w' r'].
+  - cbn. lra.
+  - change (cums acc (w :: w' :: r')) with ((acc + w) :: cums (acc + w) (w' :: r')).
+    change (cums (acc + w) (w' :: r')) with ((acc + w + w') :: cums (acc + w + w') r').
+    change (last ((acc + w) :: (acc + w + w') :: cums (acc + w + w') r') d)
+      with (last ((acc + w + w') :: cums (acc + w + w') r') d).
+    change ((acc + w + w') :: cums (acc + w + w') r') with (cums (acc + w) (w' :: r')).
+    rewrite IH by discriminate. cbn. lra.
+Qed.
+
+Lemma last_map_R (f : R -> R) l d d' : l <> [] -> last (map f l) d' = f (last l d).
+Proof.
+  induction l as [|x r IH]; intros H; [congruence|]. destruct r as [|y r']; [reflexivity|].
+  change (last (map f (x :: y :: r')) d') with (last (map f (y :: r')) d').
+  change (last (x :: y :: r') d) with (last (y :: r') d). apply IH. discriminate.
+Qed.
+
+Lemma cums_length acc l : length (cums acc l) = length l.
+Proof. revert acc; induction l as [|w r IH]; intros acc; [reflexivity|]. cbn. now rewrite IH. Qed.
+
+Theorem ends_last_one lw : lw <> [] -> last (ends lw) 1 = 1 /\ length (ends lw) = length lw.
+Proof.
+  intros H. unfold ends.
+  assert (Hn : nw lw <> []) by (unfold nw; destruct lw; [congruence|discriminate]).
+  assert (Hl : last (cums 0 (nw lw)) 1 = 1).
+  { rewrite cums_last by exact Hn. rewrite nw_sum_one by exact H. lra. }
+  split.
+  - assert (Hc : cums 0 (nw lw) <> []).
+    { intros E. apply (f_equal (@length R)) in E. rewrite cums_length in E.
+      destruct (nw lw); [congruence|discriminate]. }
+    rewrite (last_map_R _ _ 1 1 Hc). rewrite Hl. field.
+  - rewrite map_length, cums_length. unfold nw. apply map_length.
+Qed.
+
 (* equal weights *)
 Lemma rsum_repeat x n : rsum (repeat x n) = INR n * x.
 Proof.
